@@ -248,8 +248,11 @@ def rule_r4(ctx) -> RuleResult:
             n = w
             positional = False
             named = False
+            n_loops = 0
             while n in parents and n is not scope:
                 p = parents[n]
+                if isinstance(p, (ast.For, ast.While)) and p is not scope:
+                    n_loops += 1
                 if isinstance(p, ast.If) and (unparse(p.test) in ("m2", "m is not None", "m")):
                     if n in p.orelse:
                         positional = True
@@ -257,7 +260,14 @@ def rule_r4(ctx) -> RuleResult:
                         named = True
                 n = p
             label = unparse(w)
-            if positional and not named:
+            allowed_loops = 0 if isinstance(scope, (ast.For, ast.While)) else 1
+            one_step = isinstance(w, ast.AugAssign) and isinstance(w.op, ast.Add) and isinstance(w.value, ast.Constant) and w.value.value == 1
+            if positional and not named and (not one_step or n_loops > allowed_loops):
+                rr.bad(Finding("C14.R4", f, name, label,
+                               "the positional counter does not advance by exactly one per positional argument (step {} / nested loop depth {}): "
+                               "the three implementations number `{{{{t|2=a|b|c}}}}` differently".format(
+                                   unparse(w.value) if isinstance(w, ast.AugAssign) else "?", n_loops), w.lineno))
+            elif positional and not named:
                 rr.ok(name, label + " on the positional path", {"impl": name, "stmt": label})
             else:
                 rr.bad(Finding("C14.R4", f, name, label,
@@ -301,5 +311,78 @@ def rule_r5(ctx) -> RuleResult:
     return rr
 
 
+def rule_r6(ctx) -> RuleResult:
+    """What a module sees when it iterates frame.args is the chain built by prepare_frame_args.
+    Every key the bridge delivered is on that chain exactly once iff the chain is built by one
+    unconditional pass of pairs() over the delivered table (ipairs stops at the first gap, so
+    `1=a|3=c` would lose 3; a filtered pass loses whatever the filter excludes)."""
+    rr = RuleResult("C14.R6", "frame.args iteration chains every delivered key exactly once", min_instances=2)
+    p2 = ctx.lua.file("_sandbox_phase2.lua")
+    pf = p2.func_named("prepare_frame_args")
+    if pf is None:
+        raise AnalysisError("prepare_frame_args vanished")
+    # the chain table: the local that frame_args_next reads through new_args._next_key
+    chain = None
+    for n in L.walk(pf):
+        if n.kind == "table":
+            for k, v in n.fields:
+                if L.const_string(k) == "_next_key" and v.kind == "name":
+                    chain = v.id
+    if chain is None:
+        raise AnalysisError("prepare_frame_args: `_next_key = <local>` field vanished")
+    writes = []
+
+    def visit(stmts, loops, conds):
+        for st in stmts:
+            if st.kind == "assign":
+                for t in st.targets:
+                    if t.kind == "index" and t.obj.kind == "name" and t.obj.id == chain:
+                        writes.append((st, list(loops), conds))
+            elif st.kind in ("forin", "fornum", "while", "repeat"):
+                visit(st.body, loops + [st], conds)
+            elif st.kind == "if":
+                for c, b in st.clauses:
+                    visit(b, loops, conds + 1)
+                if st.orelse:
+                    visit(st.orelse, loops, conds + 1)
+            elif st.kind == "do":
+                visit(st.body, loops, conds)
+
+    visit(pf.body, [], 0)
+    if not writes:
+        raise AnalysisError("prepare_frame_args: no write to the chain table `{}` found".format(chain))
+    loops = {id(lp): lp for _, lps, _ in writes for lp in lps}
+    where = "_sandbox_phase2.lua:prepare_frame_args"
+    if len(loops) != 1:
+        rr.bad(Finding("C14.R6", P2, "prepare_frame_args", "{} loops write {}".format(len(loops), chain),
+                       "the key chain is built by {} loops instead of one pass over the delivered arguments: keys can be chained twice or "
+                       "not at all".format(len(loops)), writes[0][0].line))
+    for st, lps, conds in writes:
+        lp = lps[-1] if lps else None
+        ok_iter = lp is not None and lp.kind == "forin" and len(lp.exprs) == 1 and lp.exprs[0].kind == "call" \
+            and L.origin_of(p2, lp.exprs[0].func).kind in ("global", "function") and L.origin_of(p2, lp.exprs[0].func).path == "pairs" \
+            and len(lp.exprs[0].args) == 1 and L.text(lp.exprs[0].args[0]) == "frame.args"
+        if not ok_iter:
+            rr.bad(Finding("C14.R6", P2, "prepare_frame_args", L.text(st.targets[0]) + " = " + L.text(st.exprs[0]),
+                           "the key chain is not built by `for k in pairs(frame.args)` (iterator: {}): ipairs stops at the first missing "
+                           "number, so `{{{{#invoke:m|f|1=a|3=c}}}}` never shows 3 to the module".format(
+                               L.text(lp.exprs[0]) if lp is not None and lp.kind == "forin" else "none"), st.line))
+        elif conds:
+            rr.bad(Finding("C14.R6", P2, "prepare_frame_args", L.text(st.targets[0]) + " = " + L.text(st.exprs[0]),
+                           "the key is chained only under a condition: delivered keys that fail it are invisible to pairs(frame.args)", st.line))
+        else:
+            rr.ok(where, L.text(st.targets[0]) + " = " + L.text(st.exprs[0]) + " in one unconditional pairs(frame.args) pass",
+                  {"chain": chain, "line": st.line})
+    # the value chained is the loop key and the cursor advances to it
+    for st, lps, conds in writes:
+        lp = lps[-1] if lps else None
+        if lp is not None and lp.kind == "forin" and st.exprs and st.exprs[0].kind == "name" and st.exprs[0].id == lp.names[0]:
+            rr.ok(where, "chained value is the loop key")
+        else:
+            rr.bad(Finding("C14.R6", P2, "prepare_frame_args", L.text(st.exprs[0]) if st.exprs else "?",
+                           "the chained value is not the key delivered by the loop", st.line))
+    return rr
+
+
 def run(ctx) -> list:
-    return [rule_r1(ctx), rule_r2(ctx), rule_r3(ctx), rule_r4(ctx), rule_r5(ctx)]
+    return [rule_r1(ctx), rule_r2(ctx), rule_r3(ctx), rule_r4(ctx), rule_r5(ctx), rule_r6(ctx)]
